@@ -2,7 +2,12 @@
 (confirmation data are read from /tmp/seedres/<name>.json and /tmp/seedres/tests_<name>.txt)."""
 import json, os, shutil, sys
 m = sys.argv[1].rstrip("/")
-name = os.path.basename(m).replace("mut_", "").replace("m2_", "w2_")
+base = os.path.basename(m)
+if base.startswith("m2_"):          # second wave: C01_a/C01_b of the wave become C01_c/C01_d
+    pid_, letter = base[3:].split("_")
+    name = pid_ + "_" + {"a": "c", "b": "d"}[letter]
+else:
+    name = base.replace("mut_", "")
 pid = name.split("_")[0]
 res = json.load(open(f"/tmp/seedres/{os.path.basename(m)}.json"))
 tf = f"/tmp/seedres/tests_{os.path.basename(m)}.txt"; tests = open(tf).read().strip() if os.path.exists(tf) else "not run"
